@@ -14,7 +14,7 @@ var (
 	// C05's finding (inbox C05-toint-wrap-2p63.md): toInt8..toUint32 and ToInteger are wrong for finite |x| >= 2^63 (int64(f) is undefined
 	// there). Element values in the band [2^63, 2^85) are kept out of the workload (index-like arguments >= 2^63 are generated: they only clamp); from 2^85 on every
 	// double is a multiple of 2^32, the modular result is 0 and goja agrees.
-	exclHugeNumbers = true
+	exclHugeNumbers = false
 )
 
 type gen struct {
